@@ -216,3 +216,14 @@ Theorem free_complete : forall (eh hres : Type) (ehash : nat -> eh) (H : Z -> li
   compute nat fkey eh ehash hres H c xs = compute nat fkey eh ehash hres H c ys.
 Proof. exact free_complete_l. Qed.
 Print Assumptions free_complete.
+
+(** The script term the generator is compared with (script-level tie, [Corr.script_case_ok])
+    denotes the model's computation: its elements evaluate to the tuple elements [compute]
+    hashes, the wrapper argument and a caching store appear iff the class caches. *)
+Theorem script_denotes : forall (val : Type) (key : keyid -> val -> val) (dv : val) (c : cls)
+  (vs : list val), length (flds c) = length vs ->
+  map (eval_elem val key dv (flds c) vs) (hs_elems (make_hash_script c)) = hash_elems val key (flds c) vs
+  /\ hs_wrapper_arg (make_hash_script c) = cache c
+  /\ (hs_store (make_hash_script c) = StReturn <-> cache c = false).
+Proof. exact script_denotes_l. Qed.
+Print Assumptions script_denotes.
